@@ -905,20 +905,66 @@ theorem cmShape_sum {lastN : Nat} {c : ReqContent} {headers : List VH} {reorg sc
     obtain ⟨rfl, rfl⟩ := h
     omega
 
+/-- where `countBefore` stops inside the list, the header reaches the boundary -/
+theorem countBefore_stop (c : ReqContent) : ∀ (l : List VH) (n : Nat),
+    checkMatched.countBefore c l = .ok n → n < l.length →
+    ∃ f ftd, l[n]? = some f ∧ f.td = .ok ftd ∧ c.boundary ≤ ftd
+  | [], n, _, hlt => by simp at hlt
+  | a :: rest, n, h, hlt => by
+    unfold checkMatched.countBefore at h
+    simp only [M.bind_eq_ok] at h
+    obtain ⟨t, ht, h⟩ := h
+    split at h
+    · simp only [M.bind_eq_ok, M.pure_eq_ok] at h
+      obtain ⟨k, hk, rfl⟩ := h
+      simp only [List.length_cons] at hlt
+      obtain ⟨f, ftd, hf, hftd, hb⟩ := countBefore_stop c rest k hk (by omega)
+      exact ⟨f, ftd, by simpa using hf, hftd, hb⟩
+    · rename_i hnlt
+      simp only [M.pure_eq_ok] at h; subst h
+      exact ⟨a, t, rfl, ht, by omega⟩
+
+/-- a section without sampled headers that is longer than last-N begins at the first header that
+reaches the boundary: when `cmShape` answers `(0, ln)` with `lastN < ln`, the header after the
+reorg section is where the count of the headers below the boundary stopped -/
+theorem cmShape_long_no_sampled {lastN : Nat} {c : ReqContent} {headers : List VH} {reorg ln : Nat}
+    (h : cmShape lastN c headers reorg = .ok (.ok (0, ln))) (hlt : lastN < ln) :
+    ∃ f ftd, headers[reorg]? = some f ∧ f.td = .ok ftd ∧ c.boundary ≤ ftd := by
+  unfold cmShape at h
+  simp only [] at h
+  split at h
+  · simp only [M.bind_eq_ok] at h
+    obtain ⟨before, hb, h⟩ := h
+    split at h
+    · simp at h
+    rename_i hge
+    split at h
+    · rename_i hlnc
+      simp only [M.bind_eq_ok, subU64_eq_ok, M.pure_eq_ok, Except.ok.injEq, Prod.mk.injEq] at h
+      obtain ⟨x, ⟨hle, hx⟩, rfl, rfl⟩ := h
+      have hbr : before = reorg := by omega
+      subst hbr
+      exact countBefore_stop c headers before hb (by omega)
+    · simp only [M.pure_eq_ok, Except.ok.injEq, Prod.mk.injEq] at h
+      omega
+  · simp only [M.pure_eq_ok, Except.ok.injEq, Prod.mk.injEq] at h
+    omega
+
 /-- what passing `checkNoSampled` means: more than last-N blocks are missing, the last-N section
-is complete, no earlier block reaches the boundary, and the first requested difficulty (if any)
-lies inside the section -/
+is complete (at least last-N headers; it is longer when more than last-N blocks follow the block
+that reaches the boundary), no earlier block reaches the boundary, and the first requested
+difficulty (if any) lies inside the section -/
 theorem checkNoSampled_eq_none {lastN : Nat} {c : ReqContent} {f : VH} {n ln : Nat} :
     checkNoSampled lastN c f n ln = none ↔
-      lastN < n - c.startNumber ∧ ln = lastN ∧ f.ptd < c.boundary ∧
+      lastN < n - c.startNumber ∧ lastN ≤ ln ∧ f.ptd < c.boundary ∧
         ∀ d ∈ c.difficulties.head?, f.ptd < d := by
   unfold checkNoSampled
   cases c.difficulties with
   | nil =>
-    by_cases h1 : lastN < n - c.startNumber <;> by_cases h2 : ln = lastN <;>
+    by_cases h1 : lastN < n - c.startNumber <;> by_cases h2 : ln < lastN <;>
       by_cases h3 : c.boundary ≤ f.ptd <;> simp [h1, h2, h3] <;> omega
   | cons d t =>
-    by_cases h1 : lastN < n - c.startNumber <;> by_cases h2 : ln = lastN <;>
+    by_cases h1 : lastN < n - c.startNumber <;> by_cases h2 : ln < lastN <;>
       by_cases h3 : c.boundary ≤ f.ptd <;> by_cases h4 : d ≤ f.ptd <;>
       simp [h1, h2, h3, h4] <;> omega
 
